@@ -104,6 +104,8 @@ def run_case(case):
         o2 = real.try_parse(src, std=std, free=True)
         n += 1
         nt_n += 1 if nt else 0
+        if nt:
+            res.setdefault("keys", []).append("%d:%d" % (case["seed"], n))
         k = "mut:%s/%s" % (kind, cons)
         res["counts"][k] = res["counts"].get(k, 0) + 1
         res["counts"]["outcome:" + o2.kind] = res["counts"].get("outcome:" + o2.kind, 0) + 1
